@@ -2,7 +2,11 @@
 from .check import Prop
 from .gen import case
 
-HARNESS = dict(name="iter", source="iter.cpp")
+HARNESS = dict(name="iter", source="iter.cpp", san=False,
+               variants=[("asan", ["-fsanitize=address,undefined", "-fno-sanitize-recover=all", "-fno-omit-frame-pointer"]),
+                         # the range of more than 2^32 elements is walked by an optimised build without sanitizers
+                         ("fast", ["-O2", "-DNV_FAST"])],
+               variant_of=lambda c: "fast" if c.split("\t")[1] == "ebig" else "asan")
 
 KINDS = {
     # kind: (categories, writable, min length, max length, needs sorted distinct values)
@@ -49,6 +53,13 @@ def gen_c20(tier, rng):
                                 out.append(case("iter", "ec", kind, cat, "0", vl(xs)))
                         if ad == "r" and kind not in ("carr", "il") and cat == "rv":
                             out.append(case("iter", "rm", kind, cat, "0", vl(xs)))
+    # a range whose iterator throws once from an increment (without moving); the loop tries that step again
+    for n in range(1, 7):
+        for k in range(4 if big else 2):
+            out.append(case("iter", "e", "thr", "lv", "0", vl([rng.below(90) - 20 for _ in range(n)])))
+    # ranges that are longer than 2^32 elements (lazy: element k is k)
+    for n, cat in (((2 ** 32 + 3, "lv"), (2 ** 32 + 3, "rv"), (2 ** 32 - 1, "lv"), (70000, "rv")) if big else ((2 ** 32 + 3, "lv"), (65539, "rv"))):
+        out.append(case("iter", "ebig", "count", cat, "0", str(n)))
     return out
 
 
@@ -59,7 +70,7 @@ C20 = Prop(
          "allows) x length 0..6 (1..6 / 1..4 for built-in arrays / initializer lists) x read-only / write-through, with "
          "distinct ascending, descending and seeded random values; all under ASan (a dangling temporary is a "
          "use-after-scope). Non-trivial: length >= 2. Distinct = distinct case line. " \
-                "For lvalue ranges (const or not) the addresses of the visited elements are compared with the container's own elements; kind fvp: a fixed_vector with stale slots behind its end (two elements pushed and popped again).",
+                "For lvalue ranges (const or not) the addresses of the visited elements are compared with the container's own elements; kind fvp: a fixed_vector with stale slots behind its end (two elements pushed and popped again); kind thr: a range whose iterator throws once from an increment, the step being tried again; adaptor ebig: a lazy range of 2^32+3 elements (element k is k) walked by an optimised build without sanitizers - every visit must pair index k with element k.",
     harness=HARNESS, search=lambda dis, rng: gen_c20("thorough", rng),
     theorem_hint="NitroVerif.Props.C20.{enumerate_visits,reverse_visits,enumerate_values,reverse_values,enumerate_alias,empty_ranges}",
     level_text="Lean 4 theorems for every length: the range-for protocol over the enumerate iterator (index kept beside the "
